@@ -756,7 +756,7 @@ def _resolve_simple(tname):
     base = _resolve_simple(r.get('base'))
     enums = [e.get('value') for e in r.findall(XS + 'enumeration')]
     if enums:
-        return {'kind': 'enum', 'values': enums}
+        return {'kind': 'enum', 'values': enums, 'tname': tname}
     pat = r.find(XS + 'pattern')
     if pat is not None:
         return {'kind': 'pattern', 'pattern': pat.get('value'), 'base': base, 'tname': tname}
@@ -811,11 +811,48 @@ _PATTERN_INVALID = {
 }
 
 
+_ALL_ENUMS = None
+
+
+def _related_enum_literals(tname, own):
+    global _ALL_ENUMS
+    if _ALL_ENUMS is None:
+        _ALL_ENUMS = {}
+        for n, st in _stypes.items():
+            r = st.find(XS + 'restriction')
+            if r is not None:
+                lits = [e.get('value') for e in r.findall(XS + 'enumeration')]
+                if lits:
+                    _ALL_ENUMS[n] = lits
+    if not tname or tname not in _ALL_ENUMS:
+        return []
+    ownset = set(own)
+    out = []
+    stem = tname.split('-')[0]
+    related = sorted(n for n in _ALL_ENUMS if n != tname and (n.startswith(tname) or tname.startswith(n) or n.split('-')[0] == stem))
+    # restrictions of another enumerated type (xs:restriction base="other-enum")
+    st = _stypes.get(tname)
+    r = st.find(XS + 'restriction') if st is not None else None
+    if r is not None and r.get('base') in _ALL_ENUMS:
+        related.insert(0, r.get('base'))
+    for n in related:
+        for lit in _ALL_ENUMS[n]:
+            if lit not in ownset and lit not in out:
+                out.append(lit)
+                break
+    return out
+
+
 def _exemplars_info(info, tname=None):
     k = info['kind']
     if k == 'enum':
         vals = list(info['values'])
-        return vals, ['__not-a-literal__', 17.5]
+        bad = ['__not-a-literal__', 17.5]
+        # literals of *related* enumerations (a base type or a sibling with a similar name) that this type lacks:
+        # "a value valid for a sibling type" is where a shared or inherited table shows
+        for other in _related_enum_literals(info.get('tname') or tname, vals)[:3]:
+            bad.append(other)
+        return vals, bad
     if k in ('int', 'dec'):
         lo = info.get('min')
         hi = info.get('max')
